@@ -415,5 +415,6 @@ EXPLANATION = (
     "only wraps the sliced list. R4: every os.listdir of a timestamped sub-directory is inside try/except OSError and every "
     "constant subscript of a listing-derived list is reached only through a non-emptiness test. R5: the look-back loop scans all "
     "earlier sub-directories and stops only on a non-empty match list. Does NOT decide the window arithmetic (bisect positions).")
+TECHNIQUE = ('Python ast; regular-language algebra on folded regex constants; abstract execution of flag chains; sortedness typestate over the CFG; guarded-subscript dataflow')
 ASSUMPTIONS = ["os.walk swallows listing errors by default", "Python regex semantics as modelled by vp.rx"]
 FILES = [LD]
